@@ -451,6 +451,11 @@ func (x *Exec) doTx(op *Op) {
 		r.Height = x.H().Height()
 		r.Time = x.H().Time()
 		x.logf("%d msgfail h=%d res=%s", r.Idx, r.Height, res.Code)
+		if res.Code == "panic" {
+			a := panicAttrs(res.Err)
+			a["msg"] = tx.Msgs[fm].T
+			x.viol("C20", "handler_panic", fmt.Sprintf("height %d: %s signed by %s passed ValidateBasic and made the handler panic: %s", r.Height, tx.Msgs[fm].T, tx.Sender, res.Err), a)
+		}
 		x.stats.inc("fail_" + r.Msg.T)
 		x.runOracles(r)
 		x.cur = preTx
@@ -461,11 +466,19 @@ func (x *Exec) doTx(op *Op) {
 	for i := 1; i < len(x.hosts); i++ {
 		rr := x.hosts[i].RunTx(msgs, hash, tx.MsgIndexBase, tx.Gas, nil)
 		x.hosts[i].TakeCallbacks()
-		if rr.Code != res.Code || rr.Err != res.Err {
-			x.viol("C20", "replica_divergence", fmt.Sprintf("tx result differs on replica %d: %s/%s vs %s/%s", i, rr.Code, rr.Err, res.Code, res.Err), nil)
+		if rr.Code != res.Code || errHead(rr.Err) != errHead(res.Err) {
+			x.viol("C20", "replica_divergence", fmt.Sprintf("tx result differs on replica %d: %s/%s vs %s/%s", i, rr.Code, errHead(rr.Err), res.Code, errHead(res.Err)), nil)
 		}
 	}
 	x.compareReplicas("tx")
+}
+
+// errHead: the error text without the (address-bearing) stack part.
+func errHead(e string) string {
+	if i := strings.Index(e, " || "); i >= 0 {
+		return e[:i]
+	}
+	return e
 }
 
 func cloneStrMap(m map[string]string) map[string]string {
